@@ -28,7 +28,7 @@ m = {
                  'kind_free_text': 'contract-based deductive verifier for the real Python source: AST symbolic executor + sidecar contracts + z3/cvc5; native run-time contracts and replay under /verif/native'}],
     'checks': checks,
     'not_applicable': na,
-    'notes': 'See DESIGN.md. Exit codes of a check: 0 held (KNOWN-FINDING lines allowed), 1 VIOLATION, 3 checker error (spec/axiom/oracle disagreement, vacuity canary not refuted, zero obligations).',
+    'notes': 'See DESIGN.md. Exit codes of a check: 0 held (KNOWN-FINDING lines allowed), 1 VIOLATION, 2 some obligation without verdict and nothing found by the bounded stand-in, 3 checker error (spec/axiom/oracle disagreement, vacuity canary not refuted, zero obligations).',
 }
 json.dump(m, open(os.path.join(ROOT, 'MANIFEST.json'), 'w'), indent=1)
 print('claimed', len(checks), 'not_applicable', len(na))
